@@ -186,12 +186,11 @@ theorem reencode_sound {α} {o : ColOrder α} (h : Lawful o) (src : ChunkRecord 
 example : ([[some 3#32], [none, some 1#32]] : List (List (Option (BitVec 32)))).flatten =
     ([[some 3#32, none], [some 1#32]] : List (List (Option (BitVec 32)))).flatten := by decide
 
-/-- index entries may be WIDENED (what truncation of byte-array bounds does, `truncMin_le` / `truncMax_ge`): the
-    record stays sound -/
+/-- index entries may be WIDENED (what truncation of byte-array bounds does): if every entry `p` of the index is
+    replaced by `f p` with `(f p).1 ≤ p.1` and `p.2 ≤ (f p).2`, the record stays sound -/
 theorem widenIndex_sound {α} {o : ColOrder α} (h : Lawful o) (c : ChunkRecord α) (f : α × α → α × α)
-    (hf : ∀ p : α × α, o.ok p.1 = true → o.ok p.2 = true →
-      o.lt p.1 (f p).1 = false ∧ o.lt (f p).2 p.2 = false ∧ o.ok (f p).1 = true ∧ o.ok (f p).2 = true)
-    (hok : ∀ p, some p ∈ c.index → o.ok p.1 = true ∧ o.ok p.2 = true)
+    (hf : ∀ p : α × α, some p ∈ c.index → o.ok p.1 = true ∧ o.ok p.2 = true ∧
+      o.lt p.1 (f p).1 = false ∧ o.lt (f p).2 p.2 = false)
     (hs : c.Sound o) : (widenIndex f c).Sound o where
   aligned := by simpa [widenIndex] using hs.aligned
   nulls := hs.nulls
@@ -214,8 +213,7 @@ theorem widenIndex_sound {α} {o : ColOrder α} (h : Lawful o) (c : ChunkRecord 
       | none => simp at hidx
       | some p =>
         simp only [Option.map_some, Option.some.injEq] at hidx
-        have hp := hok p (List.mem_of_getElem? hc)
-        obtain ⟨h1, h2, h3, h4⟩ := hf p hp.1 hp.2
+        obtain ⟨hp1, hp2, h1, h2⟩ := hf p (List.mem_of_getElem? hc)
         obtain ⟨b1, b2⟩ := hs.bound i vals p.1 p.2 hi hc v hv hvok
         have e1 : (f p).1 = mn := by rw [hidx]
         have e2 : (f p).2 = mx := by rw [hidx]
@@ -224,17 +222,40 @@ theorem widenIndex_sound {α} {o : ColOrder α} (h : Lawful o) (c : ChunkRecord 
         · cases hcc : o.lt v (f p).1 with
           | false => rfl
           | true =>
-            rcases h.negtrans v p.1 (f p).1 hp.1 hcc with h' | h'
+            rcases h.negtrans v p.1 (f p).1 hp1 hcc with h' | h'
             · simp [h'] at b1
             · simp [h'] at h1
         · cases hcc : o.lt (f p).2 v with
           | false => rfl
           | true =>
-            rcases h.negtrans (f p).2 p.2 v hp.2 hcc with h' | h'
+            rcases h.negtrans (f p).2 p.2 v hp2 hcc with h' | h'
             · simp [h'] at h2
             · simp [h'] at b2
   chunkBound := hs.chunkBound
   chunkNullsExact := hs.chunkNullsExact
+
+/-- the byte-array column index as written: every entry truncated with `ColumnIndexSizeLimit` (`truncMinLim` /
+    `truncMaxLim`, the repaired max) — the truncated record is sound whenever the untruncated one is, for every
+    limit (0 = no truncation). With `writerRecord_sound` this is C05 for the byte-array index end to end. -/
+theorem truncatedIndex_sound (c : ChunkRecord (List Nat)) (lim : Nat)
+    (hb : ∀ p : List Nat × List Nat, some p ∈ c.index → IsBytes p.2) (hs : c.Sound Stats.bytes) :
+    (widenIndex (fun p => (truncMinLim p.1 lim, truncMaxLim p.2 lim)) c).Sound Stats.bytes := by
+  apply widenIndex_sound bytes_lawful c _ _ hs
+  intro p hp
+  refine ⟨rfl, rfl, ?_, ?_⟩
+  · simp only [Stats.bytes, lexLt, truncMinLim]
+    split
+    · simp [truncMin_le p.1 lim]
+    · simp [Trunc.lexLe_refl]
+  · simp only [Stats.bytes, lexLt, truncMaxLim]
+    split
+    · simp [truncMax_ge p.2 lim (hb p hp)]
+    · simp [Trunc.lexLe_refl]
+
+-- the hypotheses are satisfiable: one page "zz\xff\xff\xffq", limit 3 -> entry ("zz\xff", "z{\x00")
+example : (widenIndex (fun p => (truncMinLim p.1 3, truncMaxLim p.2 3))
+    (writerRecord Stats.bytes [[some [122, 122, 255, 255, 255, 113]]] [])).index = [some ([122, 122, 255], [122, 123, 0])] := by
+  decide
 
 /-! ## nested columns: the counts derived from the level stream agree with each other and with the values -/
 
